@@ -96,8 +96,8 @@ func (e Expr) leafValue() interface{} {
 	return nil
 }
 
-// BuildExpr constructs the real expression. style "expr" uses qframe.Expr /
-// qframe.Val, style "raw" uses nested []interface{} lists handed to Val
+// BuildExpr constructs the real expression. style "expr" uses qframe.Expr with raw leaf
+// values, style "val" wraps every leaf in qframe.Val, style "raw" uses nested []interface{} lists handed to Val
 // (only possible for 1-2 arguments; n-ary calls fall back to Expr).
 func BuildExpr(e Expr, style string) qframe.Expression {
 	if e.Kind != "call" {
@@ -108,9 +108,12 @@ func BuildExpr(e Expr, style string) qframe.Expression {
 	}
 	args := make([]interface{}, len(e.Args))
 	for i, a := range e.Args {
-		if a.Kind == "call" {
+		switch {
+		case a.Kind == "call":
 			args[i] = BuildExpr(a, style)
-		} else {
+		case style == "val":
+			args[i] = qframe.Val(a.leafValue()) // leaves as Expression objects (pass-through column / constant expressions)
+		default:
 			args[i] = a.leafValue()
 		}
 	}
